@@ -2,7 +2,13 @@
 mod common;
 mod arch;
 mod c01;
+mod c03;
+#[cfg(ragc_verif_sched)]
+mod c04;
 mod c06;
+mod c08;
+#[cfg(ragc_verif_sched)]
+mod c06w;
 mod c09;
 mod c10;
 mod c11;
@@ -11,6 +17,8 @@ mod c13;
 mod c20;
 mod o1;
 mod space;
+#[cfg(ragc_verif_sched)]
+mod schedx;
 
 fn main() {
     let args: Vec<String> = std::env::args().collect();
@@ -19,6 +27,8 @@ fn main() {
         "c01" => c01::run(c01::Mode::RoundTrip),
         "c02" => c01::run(c01::Mode::Format),
         "c07" => c01::run(c01::Mode::Ranges),
+        "c03" => c03::run(),
+        "c08" => c08::run(),
         "c18-table" => c01::run(c01::Mode::Table),
         "c06-op" => c06::run(),
         "c09" => c09::run(),
@@ -27,6 +37,12 @@ fn main() {
         "c12" => c12::run(),
         "c13" => c13::run(),
         "c20" => c20::run(),
+        #[cfg(ragc_verif_sched)]
+        "c06-wake" => c06w::run(),
+        #[cfg(ragc_verif_sched)]
+        "c04-sched" => c04::run("C04"),
+        #[cfg(ragc_verif_sched)]
+        "c05-sched" => c04::run("C05"),
         _ => {
             eprintln!("unknown part '{part}'");
             2
